@@ -44,6 +44,11 @@ type ReplayFile struct {
 	Log         []string `json:"log"`
 	Crash       bool     `json:"crash,omitempty"`
 	FlakyReplay bool     `json:"flaky_replay,omitempty"`
+	// RangeFrom, when set, makes the replay execute the runs RangeFrom..K of
+	// the seeded search in one process and judge run K: for violations that
+	// depend on state the code under test keeps per process (package-level
+	// caches) and therefore do not reproduce from run K's decisions alone.
+	RangeFrom *int `json:"range_from,omitempty"`
 }
 
 type sample struct {
@@ -54,6 +59,7 @@ type sample struct {
 }
 
 type violRec struct {
+	From   int    `json:"from"`
 	K      int    `json:"k"`
 	Class  string `json:"class"`
 	Msg    string `json:"msg"`
@@ -324,6 +330,19 @@ func mainReplay(t *testing.T, prop string, sc Scenario) {
 		fmt.Printf("REPLAY-ERROR bad replay file: %v\n", err)
 		os.Exit(2)
 	}
+	if rf.RangeFrom != nil {
+		var o outcome
+		for k := *rf.RangeFrom; k <= rf.K; k++ {
+			o = runOnce(t, sc, NewSearchTape(Mix(Mix(rf.Seed, HashString(prop)), uint64(k))), rf.Tier, k)
+		}
+		if o.class == "" {
+			fmt.Printf("REPLAY-RESULT none fp=%016x\n", o.run.fingerprint())
+		} else {
+			fmt.Printf("REPLAY-RESULT class=%s fp=%016x\n", o.class, o.run.fingerprint())
+			fmt.Printf("REPLAY-MSG %s\n", strings.ReplaceAll(o.msg, "\n", "\n    "))
+		}
+		return
+	}
 	var tape *Tape
 	if rf.Decisions == nil {
 		tape = NewSearchTape(Mix(Mix(rf.Seed, HashString(prop)), uint64(rf.K)))
@@ -521,7 +540,7 @@ func mainSearch(t *testing.T, prop string, sc Scenario, tier string) {
 				b, _ := json.MarshalIndent(&rf, "", " ")
 				os.WriteFile(path, b, 0o644)
 			}
-			res.Violations = append(res.Violations, violRec{K: k, Class: rf.Class, Msg: firstLines(o.msg, 6), Replay: path, Known: isKnown})
+			res.Violations = append(res.Violations, violRec{From: from, K: k, Class: rf.Class, Msg: firstLines(o.msg, 6), Replay: path, Known: isKnown})
 			if !isKnown {
 				unknownViol++
 				if unknownViol >= maxViol {
